@@ -6,11 +6,10 @@ git -C /repo diff --quiet || { echo "/repo has local changes, refusing"; exit 2;
 for d in /verif/seeded/*${PAT}*/; do
   id=$(basename $d); prop=${id%%-*}
   grep -q "\"$prop\"" <(bin/simdvet list | sed 's/ .*//;s/^/"/;s/$/"/') || { echo "$id: no check for $prop yet"; continue; }
-  if ! git -C /repo apply --check $d/patch.diff 2>/dev/null; then
-     if git -C /repo apply --3way --check $d/patch.diff 2>/dev/null; then :; else echo "$id: PATCH-DOES-NOT-APPLY"; continue; fi
-  fi
-  git -C /repo apply $d/patch.diff 2>/dev/null || git -C /repo apply --3way $d/patch.diff >/dev/null 2>&1
+  P=$d/patch.diff; [ -f $d/patch.rebased.diff ] && P=$d/patch.rebased.diff
+  if ! git -C /repo apply --check $P 2>/dev/null; then echo "$id: PATCH-DOES-NOT-APPLY (needs patch.rebased.diff)"; continue; fi
+  git -C /repo apply $P
   out=$(bin/simdvet check $prop --tier $TIER 2>&1); rc=$?
-  git -C /repo checkout -- . ; git -C /repo reset -q 2>/dev/null
+  git -C /repo reset -q --hard HEAD
   if [ $rc -eq 1 ]; then echo "$id: DETECTED $(echo "$out" | grep -m1 'rule=' | cut -c1-160)"; else echo "$id: MISSED (rc=$rc)"; fi
 done
